@@ -184,8 +184,10 @@ static void io_write_next_mono(struct snapraid_io* io, block_off_t blockcur, int
 	(void)skip;
 
 	/* report errors */
-	for (i = 0; i < IO_WRITER_ERROR_MAX; ++i)
+	for (i = 0; i < IO_WRITER_ERROR_MAX; ++i) {
 		writer_error[i] = io->writer_error[i];
+		io->writer_error[i] = 0;
+	}
 }
 
 static void io_refresh_mono(struct snapraid_io* io)
